@@ -747,13 +747,26 @@ def is_indeterminate_form(e: Expr, conds: Conditions) -> bool:
         else:
             return False
     else:
-        raise NotImplementedError
+        # one-sided limits: not analysed, leave the limit as it is
+        return True
 
 def reduce_finite_limit(e: Expr, conds: Conditions) -> Expr:
     try:
         if is_indeterminate_form(e, conds):
             return e
         body = e.body.subst(e.var, e.lim)
+
+        def vanishing_denominator(t: Expr) -> bool:
+            # a denominator that is (numerically) zero at the limit point: substitution is not allowed
+            if t.is_divides() and t.args[1].is_constant() and abs(expr.eval_expr(t.args[1])) < 1e-12:
+                return True
+            if t.is_power() and t.args[0].is_constant() and t.args[1].is_constant() and \
+                    expr.eval_expr(t.args[1]) < 0 and abs(expr.eval_expr(t.args[0])) < 1e-12:
+                return True
+            return (t.is_op() or t.is_fun()) and any(vanishing_denominator(arg) for arg in t.args)
+
+        if vanishing_denominator(body):
+            return e
         return normalize(body, conds)
     except ZeroDivisionError:
         return e
